@@ -185,3 +185,50 @@ Example C14_nonvacuous :
                                         filter (has_file fm) (document_sections ex_doc s ch) = secs) /\
   In ([ex_sec1; ex_docenv; ex_root], ex_fn) (body_nodes fm std_shows [ex_docenv; ex_root] ex_sec1 [T 2; E ex_fn [T 3]; T 4]).
 Proof. exact ex_links. Qed.
+
+(* ---- added in the deepening round (the theorems above are unchanged) ---- *)
+
+(* M3 for tables of contents.  Model of SectionUtils.tableofcontents / fulltableofcontents / the TableOfContents proxy: [tableofcontents].
+   Link kind used: ONLY the top-level entries of the table of contents a page prints for itself (obj.tableofcontents on obj's page:
+   the XHTML default layout on every page, the HTML5 default layout when localtoc-level admits the page) -- no next-links.
+   For every document, every assignment of files, toc-non-files on or off and every toc-depth >= 1: from a unit (a, cs) every
+   file-producing section below it is reached by following such entries, provided a subsection that contains a file-producing section
+   has a file itself ([closed]: true when files are assigned by level, C13_assignment, because a section only contains deeper levels).
+   For a layout that prints only the document's table on every page (HTML5 default) the entries reach the sections nested at most
+   toc-depth deep; the remaining files are reached by next-links alone (C14_nav_reaches_all), which the HTML5 layout prints whenever
+   links.next has a url.  The XHTML layout tests links/next itself, which is false for a next section without content; there the
+   own-page tables of this theorem do the work. *)
+Theorem C14_toc_reaches_all :
+  forall fmap doc nonfiles depth,
+    NoDup (sers doc) -> 1 <= depth ->
+    forall n ch a cs, n = E a cs -> In (ch, a, cs) (elems_ctx [] doc) -> closed fmap n ->
+      forall b, In b (secfiles fmap n) -> toc_reach fmap doc nonfiles depth (a_ser a) (a_ser b).
+Proof. exact toc_reaches_all. Qed.
+Print Assumptions C14_toc_reaches_all.
+
+(* the step used above: with toc-depth >= 1 a node's table of contents lists every direct subsection that has a file *)
+Theorem C14_toc_lists_children :
+  forall fmap nonfiles depth cs c b bcs,
+    1 <= depth -> In c cs -> c = E b bcs -> is_sub c = true -> has_file fmap b = true ->
+    In (a_ser b) (map toc_ser (tableofcontents fmap nonfiles depth cs)).
+Proof. exact toc_lists_children. Qed.
+Print Assumptions C14_toc_lists_children.
+
+(* toc targets exist: every entry of every table of contents, at every nesting level, for every toc-depth: it is a section-level node of
+   the document; with toc-non-files off it has a file of its own and its url is base + that file's name (which is written:
+   C14_file_is_written); with toc-non-files on its url is given by C14_url_spec / C14_url_target_exists like any other node's *)
+Theorem C14_toc_targets_exist :
+  forall fmap doc base nonfiles depth ch a cs s,
+    NoDup (sers doc) -> In (ch, a, cs) (elems_ctx [] doc) ->
+    In s (flat_map toc_all (tableofcontents fmap nonfiles depth cs)) ->
+    exists ch' b bcs, In (ch', b, bcs) (elems_ctx [] doc) /\ a_ser b = s /\ a_level b < ENDSECTIONS_LEVEL /\
+      (nonfiles = false -> has_file fmap b = true /\ url fmap doc base s = Some (url_prefix base ++ fname fmap b)).
+Proof. exact toc_targets_exist. Qed.
+Print Assumptions C14_toc_targets_exist.
+
+Example C14_toc_nonvacuous :
+  let fm := the_fmap ex_files in
+  toc_of fm ex_doc false 3 1 = [TocEntry 2 []; TocEntry 4 []] /\
+  closed fm (E ex_docenv [T 1; E ex_sec1 [T 2; E ex_fn [T 3]; T 4]; E ex_sec2 [T 5]]) /\
+  map a_ser (secfiles fm (E ex_docenv [T 1; E ex_sec1 [T 2; E ex_fn [T 3]; T 4]; E ex_sec2 [T 5]])) = [1; 2; 4].
+Proof. exact ex_toc. Qed.
